@@ -198,16 +198,30 @@ def build(parts, obs, composed=None):
     import chi
     obs = np.asarray(obs, dtype=float)
     fs = []
+    given = []
     j0 = 0
     for p in parts:
-        o = obs[:, :, j0:j0 + p['nt']].copy()
+        o = np.ascontiguousarray(obs[:, :, j0:j0 + p['nt']].copy(), dtype=np.float64)   # the user's own array
+        given.append((o, o.copy()))
         cls = getattr(chi, CLASS_NAMES[p['kind']])
         fs.append(cls(o, n_kernels=p['nk']) if p['kind'] == 'gmix' else cls(o))
         j0 += p['nt']
     if composed is None:
         composed = len(parts) > 1
     if composed:
-        return chi.ComposedPopulationFilter(fs)
-    if len(fs) != 1:
+        f = chi.ComposedPopulationFilter(fs)
+    elif len(fs) != 1:
         raise ValueError('a plain filter has exactly one part')
-    return fs[0]
+    else:
+        f = fs[0]
+    if len(GIVEN) > 8:
+        GIVEN.clear()
+    GIVEN[id(f)] = given
+    return f
+
+
+GIVEN = {}      # id(filter) -> [(array handed to the constructor, pristine copy)] (harness bookkeeping)
+
+
+def inputs_of(f):
+    return GIVEN.get(id(f), [])
